@@ -73,12 +73,13 @@ Print Assumptions C07_symmetric.
 
 (** (3) the boolean subgraph test (SubgraphMatch.subgraph_isomorphism / is_subgraph / graph_morphism.subgraph_isomorphism) is the
     definition of induced (induced = true) resp. monomorphic (induced = false) containment of child in parent,
-    with use_filter on or off *)
+    with use_filter on or off, for the default comparators (CEq) and for custom node / edge comparators (nc, ec : accept-all,
+    symmetric wildcard, pattern-side wildcard) *)
 Theorem C07_subgraph_bool :
   forall vf2b, vf2b_contract vf2b ->
-  forall use_filter induced names eattr child parent, gwf child -> gwf parent ->
-    (sub_iso vf2b use_filter induced names eattr child parent = true <->
-     contained induced (nm_sub names) (em_sub eattr) parent child).
+  forall use_filter induced nc ec names eattr child parent, gwf child -> gwf parent ->
+    (sub_iso vf2b use_filter induced nc ec names eattr child parent = true <->
+     contained induced (nm_subc nc names) (em_subc ec eattr) parent child).
 Proof. exact subgraph_bool. Qed.
 Print Assumptions C07_subgraph_bool.
 
@@ -100,8 +101,8 @@ Theorem C07_filters_necessary :
   (forall gs e hi pi c, cache_inv gs c -> gwf (gnth gs hi) -> gwf (gnth gs pi) ->
      contained true (nm_eng e) (em_eng e) (gnth gs hi) (gnth gs pi) ->
      fst (pre_check e hi (gnth gs hi) pi (gnth gs pi) c) = true) /\
-  (forall induced names eattr child parent, gwf child -> gwf parent ->
-     contained induced (nm_sub names) (em_sub eattr) parent child -> sub_filter names eattr child parent = true).
+  (forall induced nc ec names eattr child parent, gwf child -> gwf parent ->
+     contained induced (nm_subc nc names) (em_subc ec eattr) parent child -> sub_filter nc ec names eattr child parent = true).
 Proof. exact filters_necessary. Qed.
 Print Assumptions C07_filters_necessary.
 
@@ -114,8 +115,8 @@ Theorem C07_filters_transparent :
   (forall gs e b hi pi c c', cache_inv gs c -> cache_inv gs c' -> gwf (gnth gs hi) -> gwf (gnth gs pi) ->
      fst (get_mappings vf2b enum (set_wl e b) hi (gnth gs hi) pi (gnth gs pi) c') =
      fst (get_mappings vf2b enum e hi (gnth gs hi) pi (gnth gs pi) c)) /\
-  (forall induced names eattr child parent, gwf child -> gwf parent ->
-     sub_iso vf2b true induced names eattr child parent = sub_iso vf2b false induced names eattr child parent).
+  (forall induced nc ec names eattr child parent, gwf child -> gwf parent ->
+     sub_iso vf2b true induced nc ec names eattr child parent = sub_iso vf2b false induced nc ec names eattr child parent).
 Proof. exact filters_transparent. Qed.
 Print Assumptions C07_filters_transparent.
 
